@@ -208,6 +208,78 @@ theorem applyMeta_reg (dp : Path) (path : Str) (e : Entry) (o : Opts) (hp : LexA
                   simp only [hu', Bool.false_eq_true, if_false]
                   exact Triple.pure _ (fun _ h _ => h trivial)
 
+/-- what the metadata phase leaves, for an entry that is neither a hard link nor a symbolic link: the facts `R0`
+    about the object's nature (kind, content, device number) survive, and mode, time and owner are the entry's -/
+def PlainFinal (R0 : Inode → Prop) (e : Entry) (o : Opts) (n : Inode) : Prop :=
+  R0 n ∧ n.perm = e.mode &&& 0o7777 ∧ n.mtime = some (boundTime e.mtime) ∧
+  (o.noLchown = false → (n.uid, n.gid) = o.chownOpts.getD (e.uid, e.gid))
+
+theorem applyMeta_plain (dp : Path) (path : Str) (e : Entry) (o : Opts) (hp : LexArg dp path)
+    (hnl : (e.typ == .link) = false) (hns : (e.typ != .sym) = true) (R0 : Inode → Prop)
+    (hc0 : ∀ n u g, R0 n → R0 (chownInode n u g)) (hm0 : ∀ n p, R0 n → R0 { n with perm := p })
+    (ht0 : ∀ n t, R0 n → R0 { n with mtime := t }) (hx0 : ∀ n xs, R0 n → R0 { n with xattrs := xs }) :
+    Triple (Obj dp path R0) (applyMetaP path e o)
+      (fun out w' => out = .ok → Obj dp path (PlainFinal R0 e o) w') := by
+  unfold applyMetaP
+  -- ownership
+  refine Triple.bind (Q := fun c w' => isErr c = false →
+      Obj dp path (fun n => R0 n ∧
+        (o.noLchown = false → (n.uid, n.gid) = o.chownOpts.getD (e.uid, e.gid))) w') _ _ ?_ ?_
+  · by_cases hno : o.noLchown = true
+    · simp only [hno, if_true]
+      exact Triple.pure _ (fun w h _ => h.mono (fun n hn => ⟨hn, fun h' => by cases h'⟩))
+    · have hno' : o.noLchown = false := by simpa using hno
+      simp only [hno', Bool.false_eq_true, if_false]
+      refine Triple.conseq _ (chown_effect dp path hp _ _ false _) (fun _ h => h) ?_
+      intro c w' hq hc
+      refine (hq.2 hc).mono ?_
+      rintro n' ⟨n, hn, rfl⟩
+      have hk := chownInode_keeps n (o.chownOpts.getD (e.uid, e.gid)).1 (o.chownOpts.getD (e.uid, e.gid)).2
+      exact ⟨hc0 n _ _ hn, fun _ => by rw [hk.2.2.1, hk.2.2.2]⟩
+  · intro c
+    by_cases hc : isErr c = true
+    · simp only [hc, if_true]
+      exact Triple.pure _ (fun _ _ h => by cases h)
+    · have hc' : isErr c = false := by simpa using hc
+      simp only [hc', Bool.false_eq_true, if_false]
+      -- extended attributes leave everything else alone
+      refine Triple.bind (Q := fun _ w' => Obj dp path (fun n => R0 n ∧
+          (o.noLchown = false → (n.uid, n.gid) = o.chownOpts.getD (e.uid, e.gid))) w') _ _ ?_ ?_
+      · exact Triple.conseq _ (setXattrs_keeps dp path hp _ _ (fun n xs h => ⟨hx0 n xs h.1, h.2⟩) e.xattrs) (fun w h => h trivial) (fun _ _ h => h)
+      · intro x
+        by_cases hx : isErr x = true
+        · simp only [hx, if_true]
+          exact Triple.pure _ (fun _ _ h => by cases h)
+        · have hx' : isErr x = false := by simpa using hx
+          simp only [hx', Bool.false_eq_true, if_false, hnl, hns, if_true]
+          -- mode, after the ownership change
+          refine Triple.bind (Q := fun m w' => isErr m = false → Obj dp path (fun n => R0 n ∧
+              (o.noLchown = false → (n.uid, n.gid) = o.chownOpts.getD (e.uid, e.gid)) ∧ n.perm = e.mode &&& 0o7777) w') _ _ ?_ ?_
+          · refine Triple.conseq _ (chmod_effect dp path hp e.mode _) (fun _ h => h) ?_
+            intro m w' hq hm
+            refine (hq.2 hm).mono ?_
+            rintro n' ⟨n, hn, rfl⟩
+            exact ⟨hm0 n _ hn.1, hn.2, rfl⟩
+          · intro m
+            by_cases hm : isErr m = true
+            · simp only [hm, if_true]
+              exact Triple.pure _ (fun _ _ h => by cases h)
+            · have hm' : isErr m = false := by simpa using hm
+              simp only [hm', Bool.false_eq_true, if_false]
+              refine Triple.bind (Q := fun u w' => isErr u = false → Obj dp path (PlainFinal R0 e o) w') _ _ ?_ ?_
+              · refine Triple.conseq _ (utimes_effect dp path hp (boundTime e.mtime) true _) (fun w h => h trivial) ?_
+                intro u w' hq hu
+                refine (hq.2 hu).mono ?_
+                rintro n' ⟨n, hn, rfl⟩
+                exact ⟨ht0 n _ hn.1, hn.2.2, rfl, hn.2.1⟩
+              · intro u
+                by_cases hu : isErr u = true
+                · simp only [hu, if_true]
+                  exact Triple.pure _ (fun _ _ h => by cases h)
+                · have hu' : isErr u = false := by simpa using hu
+                  simp only [hu', Bool.false_eq_true, if_false]
+                  exact Triple.pure _ (fun _ h _ => h trivial)
+
 theorem dropLast_ne_self (q : Path) (h : q ≠ []) : q.dropLast ≠ q := by
   intro e
   have := congrArg List.length e
